@@ -45,6 +45,9 @@ class Authenticator:
             Action.query.value: self.default_roles,
         }
         valid_urls = options.get("relay_urls", "ws://localhost:6969")
+        if isinstance(valid_urls, str):
+            # a single url: 'tag[1] not in valid_urls' must not become a substring test
+            valid_urls = [valid_urls]
         for action, roles in options.get("actions", {}).items():
             if isinstance(action, Action):
                 action = action.value
